@@ -18,6 +18,8 @@ func main() {
 		os.Exit(2)
 	}
 	switch os.Args[1] {
+	case "pair":
+		cmdVerify(append([]string{"-pair"}, os.Args[2:]...))
 	case "verify":
 		cmdVerify(os.Args[2:])
 	case "check":
@@ -150,6 +152,7 @@ func cmdVerify(args []string) {
 	solv := fs.String("solvers", "z3new,cvc5,z3", "solver order")
 	agree := fs.Bool("agree", false, "run all solvers")
 	verbose := fs.Bool("v", false, "print every obligation")
+	pair := fs.Bool("pair", false, "two-run (equiv) lemmas instead of contracts")
 	fs.Parse(args)
 	e, err := LoadEngine(envOr("GOVC_REPO", "/repo"), envOr("GOVC_VERIF", "/verif"))
 	if err != nil {
@@ -168,7 +171,20 @@ func cmdVerify(args []string) {
 	} else {
 		os.MkdirAll(dir, 0o755)
 	}
-	results := e.verifyAll(fns, dir, *per, strings.Split(*solv, ","), *agree, 16)
+	var results []*FnResult
+	if *pair {
+		var m interface{ MatchString(string) bool }
+		if re != nil {
+			m = re
+		}
+		jobs, skipped := e.pairJobs(*tag, m)
+		for k, r := range skipped {
+			fmt.Printf("skipped %s: %s\n", k, r)
+		}
+		results = e.verifyPairs(jobs, dir, *per, strings.Split(*solv, ","), *agree, 16)
+	} else {
+		results = e.verifyAll(fns, dir, *per, strings.Split(*solv, ","), *agree, 16)
+	}
 	nOK, nAll := 0, 0
 	for _, r := range results {
 		vc := r.VC
@@ -216,4 +232,3 @@ func cmdVerify(args []string) {
 	}
 	fmt.Printf("total: %d/%d obligations discharged over %d functions\n", nOK, nAll, len(results))
 }
-
